@@ -281,6 +281,21 @@ def run(ctx):
                 ctx.discrepancy("cross-file-findings-changed-by-unparsable-file:stringly-typed", "%s: stringly-typed findings changed although the offending file cannot be parsed: lost %r new %r" % (
                     case["id"], lost, new), rep, files)
             ctx.count("cross_file_comparisons")
+    # the repository's own test suite as a second workload for the failure tap: no scenario of the maintainers may end in a swallowed exception either
+    from .. import suite_mon
+    sm = suite_mon.run()
+    if sm.get("timeout") or sm.get("passed") is None:
+        ctx.inconclusive_if(True, "repository suite under the failure tap did not finish: %s" % str(sm)[:200])
+    else:
+        ctx.count("suite_tests_passed_under_tap", sm["passed"])
+        ctx.count("suite_swallowed_events", len(sm["swallowed"]))
+        seen_s = set()
+        for ev in sm["swallowed"]:
+            key = "suite-run:swallowed:%s:%s" % (ev.get("exc_type"), fam(ev.get("rule")) if ev.get("rule") else ev.get("where"))
+            if key not in seen_s:
+                seen_s.add(key)
+                ctx.discrepancy(key, "while the repository's own tests ran, rule %s failed internally on %s with %s: %s (swallowed; the test did not notice)" % (
+                    ev.get("rule"), os.path.basename(str(ev.get("file"))), ev.get("exc_type"), str(ev.get("exc_msg"))[:120]), {"suite_event": ev}, {})
     # CLI layer sample: exit codes / tracebacks
     cmds = ["nesting", "magic-numbers", "dry", "srp", "stringly-typed", "improper-logging", "file-header", "unwrap-abuse", "lbyl", "perf"]
     sample = rng.sample(range(len(cases)), min(len(cases), ctx.size(60, 600)))
